@@ -234,7 +234,8 @@ def run(prog, rep):
                 if fk.endswith("->family") and fop == "==":
                     fam = fv
             if fam is not None:
-                sizes[fam] = cv(stmt.get("e"))
+                v = cv(stmt.get("e"))
+                sizes[fam] = v if v is not None else guards.eval_const(stmt.get("e"), st)       # single-exit form: the size sits in a local
         return [guards.transfer(st, stmt)]
     Flow(gs, [guards.EMPTY], s3, lambda st, b, to, on: guards.edge_assume(st, b, on)).run()
     want = {INET: u.records["sockaddr_in"].size if "sockaddr_in" in u.records else None,
@@ -252,7 +253,9 @@ def run(prog, rep):
                     guardsz[fam] = cv(n["r"])
         return [guards.transfer(st, stmt)]
     Flow(fout, [guards.EMPTY], s4, lambda st, b, to, on: guards.edge_assume(st, b, on)).run()
-    ok3 = sizes == want and guardsz == want and None not in want.values()
+    # families outside the two supported ones (an explicit `case UNKNOWN:` next to the default) report 0
+    ok3 = dict((f, v) for (f, v) in sizes.items() if f in want) == want and all(v == 0 for (f, v) in sizes.items() if f not in want) \
+        and guardsz == want and None not in want.values()
     rep.ob("C17.3", gs, "size", ok3, "get_native_size and to_native's length guard both use sizeof (sockaddr_in)=%s / sizeof (sockaddr_in6)=%s" % (want[INET], want[INET6]) if ok3 else
            "native sizes disagree: get_native_size %s, to_native guard %s, structures %s" % (sizes, guardsz, want), gs.loc[0])
     # ... and new_from_native accepts every length from the structure size upwards: on its success paths the length is only
